@@ -1,5 +1,6 @@
 // Self-tests of the machinery itself (not property checks): determinism, refdec vs libbz2.
 #include "selftest.h"
+#include <sys/sysmacros.h>
 #include <cstdio>
 #include <cstring>
 #include <sys/wait.h>
@@ -125,7 +126,8 @@ static Bytes slurp(const std::string &p) { Bytes b; FILE *f = fopen(p.c_str(), "
 
 static std::string describe_node(int type, const Bytes &data, unsigned mode, int64_t ms, int64_t mn, bool with_meta) {
   char b[200];
-  snprintf(b, sizeof b, "type=%d size=%zu hash=%016llx", type, type == sim::T_DIR ? 0 : data.size(), (unsigned long long)(type == sim::T_DIR ? 0 : sim::hash_bytes(data.data(), data.size())));
+  bool has_data = type == sim::T_REG || type == sim::T_LNK;     // directories, named pipes and devices have no content to compare
+  snprintf(b, sizeof b, "type=%d size=%zu hash=%016llx", type, has_data ? data.size() : (size_t)0, (unsigned long long)(has_data ? sim::hash_bytes(data.data(), data.size()) : 0));
   std::string s = b;
   if (with_meta) { snprintf(b, sizeof b, " mode=%o mtime=%lld.%09lld", mode & 0777, (long long)ms, (long long)mn); s += b; }
   return s;
@@ -138,6 +140,8 @@ static RealResult run_real(const std::vector<std::string> &argv, const std::vect
     std::string p = dir + "/" + f.name;
     if (f.type == sim::T_DIR) mkdir(p.c_str(), 0755);
     else if (f.type == sim::T_LNK) { if (symlink(f.data.c_str(), p.c_str())) {} }
+    else if (f.type == sim::T_FIFO) { if (mkfifo(p.c_str(), f.mode & 0777)) {} }
+    else if (f.type == sim::T_CHR) { if (mknod(p.c_str(), S_IFCHR | (f.mode & 0777), makedev(1, 3))) { R.kind = -2; return R; } }   // /dev/null's numbers; needs root
     else {
       FILE *o = fopen(p.c_str(), "wb"); if (!o) continue; fwrite(f.data.data(), 1, f.data.size(), o); fclose(o);
       chmod(p.c_str(), f.mode & 07777);
@@ -182,7 +186,7 @@ static RealResult run_real(const std::vector<std::string> &argv, const std::vect
       if (n == "." || n == ".." || n == ".stdin" || n == ".stdout" || n == ".stderr") continue;
       struct stat sb; std::string p = dir + "/" + n;
       if (lstat(p.c_str(), &sb)) continue;
-      int type = S_ISDIR(sb.st_mode) ? sim::T_DIR : S_ISLNK(sb.st_mode) ? sim::T_LNK : sim::T_REG;
+      int type = S_ISDIR(sb.st_mode) ? sim::T_DIR : S_ISLNK(sb.st_mode) ? sim::T_LNK : S_ISFIFO(sb.st_mode) ? sim::T_FIFO : S_ISCHR(sb.st_mode) ? sim::T_CHR : sim::T_REG;
       Bytes data; if (type == sim::T_REG) data = slurp(p); else if (type == sim::T_LNK) { char b[4096]; ssize_t l = readlink(p.c_str(), b, sizeof b); data.assign(b, l > 0 ? l : 0); }
       R.listing[n] = describe_node(type, data, sb.st_mode, sb.st_mtim.tv_sec, sb.st_mtim.tv_nsec, type == sim::T_REG);
     }
@@ -206,16 +210,18 @@ static int fidelity(uint64_t seed, int n) {
       bool skip = false;
       for (auto &f : c.files) if (f.noread) skip = true;      // we run as root: EACCES cannot be produced on the real file system
       for (auto &f : c.files) if (f.name.empty() || f.name[0] == '.') skip = true;
+      if (!c.runs.empty() && !c.runs[0].faults.empty()) skip = true;      // injected faults (failing stderr) cannot be produced on the real kernel
       if (skip) { skipped++; continue; }
       RunCfg r = c.runs[0];
       Ctx ctx;
       sim::Result s = exec(r, Bytes(), c.files, ctx);
       RealResult real = run_real(r.argv, c.files, Bytes(), false, -1, base + "/w");
+      if (real.kind == -2) { skipped++; continue; }      // could not create a device node
       compared++;
       std::string why;
       if (s.kind != real.kind || s.code != real.code) why = "status: sim " + props::cls_of_exit(s) + " real kind=" + std::to_string(real.kind) + " code=" + std::to_string(real.code);
       else if (s.err.empty() != real.err.empty()) why = "stderr emptiness differs: sim \"" + s.err.substr(0, 150) + "\" real \"" + real.err.substr(0, 150) + "\"";
-      else if (s.out != real.out) why = "stdout differs";
+      else if (s.out != real.out && s.kind == sim::X_EXIT && (s.code == 0 || s.code == 4)) why = "stdout differs";     // what a failing run had already written is timing dependent (DESIGN C09)
       else {
         std::map<std::string, std::string> sl;
         for (auto &kv : s.world.dir) { const sim::Inode &in = s.world.inodes[kv.second]; sl[kv.first] = describe_node(in.type, in.data, in.mode, in.mtime_s, in.mtime_ns, in.type == sim::T_REG); }
@@ -267,7 +273,7 @@ static int fidelity(uint64_t seed, int n) {
     for (int s : {SIGINT, SIGUSR1, SIGUSR2, SIGTERM}) signal(s, SIG_DFL);
   }
   if (system(rm_rf(base).c_str())) {}
-  printf("selftest-fidelity: %d scenarios compared with the real binary on the real kernel (%d skipped: need a non-root user), mismatches=%d\n", compared, skipped, bad);
+  printf("selftest-fidelity: %d scenarios compared with the real binary on the real kernel (%d skipped: unreadable files need a non-root user, injected faults need the simulator), mismatches=%d\n", compared, skipped, bad);
   return bad ? 1 : 0;
 }
 int run_fidelity(uint64_t seed, int n) { return fidelity(seed, n); }
